@@ -122,4 +122,4 @@ CHECKS = {
 }
 NOT_APPLICABLE = {
 }
-FIX_COMMITS = ['0d39fae', 'ee7fbf0', 'ec74ff3', '0116491', '72bb2c6', '4feb9ab', '7a4e62d', '30a94f5', '6402c4d', 'ecfd2cd', '4061701', '189c2b3', '32b357f', '55a609d', 'a42390f', '47eaeb4', 'f5ca257', '5af3cbd', 'b005669', '4d357b3', '2d00ca1', '2d446c7', 'c2c108f', '4d59c40', '4b7bf54', 'bbdb6e6', '82136ff', '8e33f76', '8b08716', 'aa32fce', 'ab06ad9', 'b32c66b', 'f376e1c', 'ec43b70', 'ce59fc4', '493279c', '5984c10', 'd77b084', '6574beb', 'c3b8fef', '5e30e77', '45fc811', 'e9ab341', '707dd96', '564aab0', '0c2564c', 'dfda84c', '520a577', '4633d65', 'eda068b', '4189ddb', '63b1bca', '3f24dc5', '25e94da', '6817b4f', '5728b71', '732bf61', 'e472405', 'd902390', 'f5e7af7', '1134d7e', '89cc536', 'f1770d9', 'b3ccfbc', '79bc8c5', '1d2ede5', '6816ebb', '3b0bbf7', '08a23d6', '3e736a9', 'aabcb54', '8bd58bd', '86ea39e', 'cad588d', 'a9b2656', '9db1dd7', '9d953c9', 'daf365e']
+FIX_COMMITS = ['0d39fae', 'ee7fbf0', 'ec74ff3', '0116491', '72bb2c6', '4feb9ab', '7a4e62d', '30a94f5', '6402c4d', 'ecfd2cd', '4061701', '189c2b3', '32b357f', '55a609d', 'a42390f', '47eaeb4', 'f5ca257', '5af3cbd', 'b005669', '4d357b3', '2d00ca1', '2d446c7', 'c2c108f', '4d59c40', '4b7bf54', 'bbdb6e6', '82136ff', '8e33f76', '8b08716', 'aa32fce', 'ab06ad9', 'b32c66b', 'f376e1c', 'ec43b70', 'ce59fc4', '493279c', '5984c10', 'd77b084', '6574beb', 'c3b8fef', '5e30e77', '45fc811', 'e9ab341', '707dd96', '564aab0', '0c2564c', 'dfda84c', '520a577', '4633d65', 'eda068b', '4189ddb', '63b1bca', '3f24dc5', '25e94da', '6817b4f', '5728b71', '732bf61', 'e472405', 'd902390', 'f5e7af7', '1134d7e', '89cc536', 'f1770d9', 'b3ccfbc', '79bc8c5', '1d2ede5', '6816ebb', '3b0bbf7', '08a23d6', '3e736a9', 'aabcb54', '8bd58bd', '86ea39e', 'cad588d', 'a9b2656', '9db1dd7', '9d953c9', 'daf365e', '85e8340', 'e56e7e0']
